@@ -528,7 +528,8 @@ impl<'p> Interp<'p> {
 				return Ok(self.read(&c));
 			}
 			if let Some((ty, e)) = self.find_const(name) {
-				let v = self.eval_const(&e, &ty, None)?;
+				let file = if self.prog.consts_by_file.contains_key(&(self.cur_file(), name.to_string())) { self.cur_file() } else { self.prog.const_file.get(name.as_str()).cloned().unwrap_or_default() };
+				let v = self.eval_const_in(&e, &ty, None, file)?;
 				return Ok(v);
 			}
 			if name == "None" {
@@ -565,12 +566,14 @@ impl<'p> Interp<'p> {
 		}
 		// associated const
 		if let Some((ty, e)) = self.prog.assoc_consts.get(&(tyname.clone(), item.clone())).cloned() {
-			return self.eval_const(&e, &ty, Some(tyname.clone()));
+			let file = self.prog.assoc_const_file.get(&(tyname.clone(), item.clone())).cloned().unwrap_or_default();
+			return self.eval_const_in(&e, &ty, Some(tyname.clone()), file);
 		}
 		// trait-level const for a type implementing the trait
 		for ((t, n), (ty, e)) in self.prog.assoc_consts.clone().iter() {
 			if n == &item && self.prog.implements.contains(&(tyname.clone(), t.clone())) {
-				return self.eval_const(e, ty, Some(tyname.clone()));
+				let file = self.prog.assoc_const_file.get(&(t.clone(), n.clone())).cloned().unwrap_or_default();
+				return self.eval_const_in(e, ty, Some(tyname.clone()), file);
 			}
 		}
 		// numeric consts
@@ -607,7 +610,11 @@ impl<'p> Interp<'p> {
 	}
 
 	fn eval_const(&mut self, e: &syn::Expr, ty: &syn::Type, self_ty: Option<String>) -> R<V> {
-		self.frames.push(Frame { scopes: vec![HashMap::new()], self_ty, tparams: HashMap::new(), ret_hint: None, fname: "<const>".into(), file: self.cur_file() });
+		let f = self.cur_file();
+		self.eval_const_in(e, ty, self_ty, f)
+	}
+	fn eval_const_in(&mut self, e: &syn::Expr, ty: &syn::Type, self_ty: Option<String>, file: String) -> R<V> {
+		self.frames.push(Frame { scopes: vec![HashMap::new()], self_ty, tparams: HashMap::new(), ret_hint: None, fname: "<const>".into(), file });
 		let r = self.eval_hint(e, Some(ty));
 		self.frames.pop();
 		let v = r?;
@@ -990,7 +997,8 @@ impl<'p> Interp<'p> {
 				let (tyname, var) = self.pat_path(&p.path, p.qself.as_ref())?;
 				// associated const?
 				if let Some((ty, e)) = self.prog.assoc_consts.get(&(tyname.clone(), var.clone())).cloned() {
-					let cv = self.eval_const(&e, &ty, Some(tyname))?;
+					let file = self.prog.assoc_const_file.get(&(tyname.clone(), var.clone())).cloned().unwrap_or_default();
+					let cv = self.eval_const_in(&e, &ty, Some(tyname), file)?;
 					return self.match_value(&cv, v);
 				}
 				// numeric constants such as PeriodType::MAX
